@@ -67,7 +67,7 @@ def payload_bytes(file_id: int, seg: int, n: int) -> bytes:
 def make_fragment(seq, track_id, decode_time, sample_durs, sample_sizes, payload, *, file_offset,
                   tfdt='v1', base='moof', styp=False, sidx=False, timescale=1000,
                   encrypted=False, iv_size=8, subsamples=False, emsg=None, per_sample_saiz=False,
-                  moof_pssh=None, dur_from='trun', free_pad=0):
+                  moof_pssh=None, dur_from='trun', free_pad=0, mdat64=False):
     """-> bytes of [styp][sidx][emsg] moof mdat, laid out for absolute position file_offset."""
     pre = b''
     if styp:
@@ -146,19 +146,20 @@ def make_fragment(seq, track_id, decode_time, sample_durs, sample_sizes, payload
                            struct.pack('>HH', 0, 1) +
                            struct.pack('>III', ref_size, sum(sample_durs), 0x90000000))
     moof_pos = file_offset + len(pre) + len(sidx_box) + len(em)
-    data_offset = len(moof) + 8
+    data_offset = len(moof) + (16 if mdat64 else 8)
     saio_off = 0
     if encrypted:
         # traf starts at moof + 8 + len(mfhd); traf header 8; senc header 8 + fullbox 4 + count 4
         saio_off = 8 + len(mfhd) + 8 + senc_pos + 16
     moof, _ = build(moof_pos, data_offset, saio_off)
-    return pre + sidx_box + em + moof + box(b'mdat', payload) + (box(b'free', bytes(free_pad)) if free_pad else b'')
+    mdat = (struct.pack('>I4sQ', 1, b'mdat', 16 + len(payload)) + payload) if mdat64 else box(b'mdat', payload)
+    return pre + sidx_box + em + moof + mdat + (box(b'free', bytes(free_pad)) if free_pad else b'')
 
 
 def make_file(*, kind='video', timescale=1000, durations=(2000, 3000, 2500, 1500, 4000), start_time=0,
               tfdt='v1', styp=False, sidx=False, base='moof', samples_per_seg=2, encrypted=False, iv_size=8,
               subsamples=False, file_id=1, track_id=1, start_number=1, sample_size=40,
-              per_sample_saiz=False, extra_kids=(), dur_from='trun', trex_duration=None, kid=None, free_pad=0, trailer=False) -> bytes:
+              per_sample_saiz=False, extra_kids=(), dur_from='trun', trex_duration=None, kid=None, free_pad=0, trailer=False, mdat64=False) -> bytes:
     moof_pssh = None
     if extra_kids:
         moof_pssh = fullbox(b'pssh', 1, 0, COMMON_SYSTEM_ID + struct.pack('>I', len(extra_kids)) +
@@ -175,7 +176,7 @@ def make_file(*, kind='video', timescale=1000, durations=(2000, 3000, 2500, 1500
         frag = make_fragment(start_number + i, track_id, t, durs, sizes, payload, file_offset=len(out),
                              tfdt=tfdt, base=base, styp=styp, sidx=sidx, timescale=timescale,
                              encrypted=encrypted, iv_size=iv_size, subsamples=subsamples,
-                             per_sample_saiz=per_sample_saiz, moof_pssh=moof_pssh if i == 0 else None, dur_from=dur_from, free_pad=free_pad)
+                             per_sample_saiz=per_sample_saiz, moof_pssh=moof_pssh if i == 0 else None, dur_from=dur_from, free_pad=free_pad, mdat64=mdat64)
         out += frag
         t += d
     if trailer:
@@ -225,7 +226,9 @@ RECIPES = {
     },
     # fragments numbered from 0
     'synzero': {
-        'synzero_v1': dict(kind='video', timescale=1000, durations=(2000, 2000, 2000, 2000, 2000), file_id=19, start_number=0),
+        # (the video fragments carry their payload in an mdat with the 64-bit size form)
+        'synzero_v1': dict(kind='video', timescale=1000, durations=(2000, 2000, 2000, 2000, 2000), file_id=19, start_number=0,
+                           mdat64=True),
         'synzero_a1': dict(kind='audio', timescale=48000, track_id=2, file_id=20, start_number=0,
                            durations=(96000, 96000, 96000, 96000, 96000)),
     },
@@ -256,7 +259,7 @@ RECIPES = {
     'synmk': {
         'synmk_v1': dict(kind='video', timescale=1000, durations=(2000, 2000, 2000), file_id=13),
         'synmk_v1_enc': dict(kind='video', timescale=1000, durations=(2000, 2000, 2000), file_id=13,
-                             encrypted=True, iv_size=8, extra_kids=(SECOND_KID,)),
+                             encrypted=True, iv_size=8, extra_kids=(SECOND_KID,), mdat64=True),
         'synmk_a1': dict(kind='audio', timescale=48000, track_id=2, durations=(96000, 96000, 96000), file_id=14),
         # ... and an audio track under a key of its own, with 16-byte IVs where the video has 8-byte ones
         'synmk_a1_enc': dict(kind='audio', timescale=48000, track_id=2, durations=(96000, 96000, 96000), file_id=14,
